@@ -244,6 +244,10 @@ class Repo:
             from .inline import flatten, load_inventory
             from .unrename import recover
             self.renamed = recover(self, load_inventory())
+            from .exitstack import desugar
+            self.exitstacks = desugar(self)
+            from .unroll import unroll_tables
+            self.unrolled = unroll_tables(self)
             from .outline import reoutline
             self.reoutlined = reoutline(self, load_inventory())
             self.inliner = flatten(self)
